@@ -119,8 +119,6 @@ var c11ResidualIndex = map[string]string{
 	"yqlib.unwrap/value:slice-low const 1":                                               "LEXEME: called on quoted lexemes (`\"…\"`, `.\"…\"`), at least two bytes",
 	"yqlib.popOpToResult/opStack:index len-1":                                            "CALLSITE: every call site in ConvertToPostfix establishes len(opStack) >= 1 (C09-T6)",
 	"yqlib.popOpToResult/opStack:slice-high len-1":                                       "CALLSITE: every call site in ConvertToPostfix establishes len(opStack) >= 1 (C09-T6)",
-	"yqlib.parseInt64/numberString:slice-low const 2":                                    "PREFIX: reached only under strings.HasPrefix(numberString, \"0x\"|\"0X\"|\"0o\")",
-	"yqlib.subtractDateTime/rhs.Value:slice-low const 1":                                 "PREFIX: reached only under strings.HasPrefix(rhs.Value, \"-\")",
 	"yqlib.propertiesDecoder.applyPropertyComments/path:index len-1":                     "PROP_KEY: magiconair/properties rejects an empty key, so parsePropKey yields at least one element",
 	"yqlib.xmlDecoder.convertToYamlNode/createValueNodeFromData().Content:index const 0": "XML_SEQ: createValueNodeFromData returns a !!seq only for >= 2 values",
 	"yqlib.xmlDecoder.createMap/n.Children[].V:index const 0":                            "XML_CHILDREN: an entry of xmlNode.Children is created with its first child (xmlNode.AddChild)",
@@ -159,6 +157,7 @@ func runC11(c *Ctx) {
 	ruleP8(c, "P8", 80)
 	ruleB1(c, "P9", 2)
 	ruleP10(c, "P10")
+	ruleP11(c, "P11")
 	// ---- P6 ---------------------------------------------------------------------
 	for _, fn := range c.moduleFuncs() {
 		for _, s := range recoverLostSites(c, fn) {
